@@ -213,6 +213,10 @@ func TestPropLucky(t *testing.T) {
 
 type ntimedCase struct {
 	H []sample
+	// Epoch0 is the clock epoch when the filters of this case are created: 0 for a service that has just been
+	// started and has not stepped its clock yet (driver/clocks.SystemClock counts its steps from 0), so that the
+	// first epoch change of a history is the clock's first step.
+	Epoch0 uint64 `json:"epoch0,omitempty"`
 }
 
 func ulpNs(x float64) float64 { return (math.Nextafter(math.Abs(x), math.Inf(1)) - math.Abs(x)) * 1e9 }
@@ -269,6 +273,7 @@ func (r *refStats) step(s sample) (judged, inside bool) {
 }
 
 func checkNtimed(t failer, c ntimedCase) (judgedInside, tails int) {
+	clk.SetEpoch(c.Epoch0)
 	f := client.NewNtimedFilter(nil)
 	var fresh *client.NtimedFilter // fed only the samples since the last reset / epoch change
 	fresh = client.NewNtimedFilter(nil)
@@ -324,7 +329,7 @@ func checkNtimed(t failer, c ntimedCase) (judgedInside, tails int) {
 	return
 }
 
-var recNtimed = ev.New("c17/ntimed", "rapid: histories of 1..80 exchanges (true offset within +-1 day, occasionally +-30 years, and in 3 of 40 histories one side's instants at the zero time.Time or in the year 9000 so that the differences saturate - there only sign and saturation of the first three outputs are judged; delays with spikes x10..x1000 in either direction), Reset() calls and clock-epoch changes at generated positions (one registered fake clock supplies the epoch). Oracles: first three outputs after construction/reset/epoch change equal the raw offset (2 ns + 8 ulp of the operands); a filter with earlier history and a fresh filter fed only the samples since the last reset/epoch change return bit-identical outputs; samples that a harness-side replica of Ntimed's running statistics puts clearly inside the learned bounds (guard band 1e-9 relative) return the raw offset. One evaluation = one history. Non-trivial: >= 1 judged inside-bounds sample at position >= 4, or a reset/epoch change followed by >= 4 samples; distinct by history hash")
+var recNtimed = ev.New("c17/ntimed", "rapid: histories of 1..80 exchanges (true offset within +-1 day, occasionally +-30 years, and in 3 of 40 histories one side's instants at the zero time.Time or in the year 9000 so that the differences saturate - there only sign and saturation of the first three outputs are judged; delays with spikes x10..x1000 in either direction), Reset() calls and clock-epoch changes at generated positions (one registered fake clock supplies the epoch; 3 of 4 histories begin at epoch 0 like a service that has not stepped its clock yet, the others at a later epoch). Oracles: first three outputs after construction/reset/epoch change equal the raw offset (2 ns + 8 ulp of the operands); a filter with earlier history and a fresh filter fed only the samples since the last reset/epoch change return bit-identical outputs; samples that a harness-side replica of Ntimed's running statistics puts clearly inside the learned bounds (guard band 1e-9 relative) return the raw offset. One evaluation = one history. Non-trivial: >= 1 judged inside-bounds sample at position >= 4, or a reset/epoch change followed by >= 4 samples; distinct by history hash")
 
 func genNtimedHistory(t *rapid.T) []sample {
 	n := rapid.OneOf(rapid.IntRange(1, 80), rapid.IntRange(4, 30)).Draw(t, "n")
@@ -366,6 +371,9 @@ func genNtimedHistory(t *rapid.T) []sample {
 func TestPropNtimed(t *testing.T) {
 	vt.Check(t, 60000, 400000, func(t *rapid.T) {
 		c := ntimedCase{H: genNtimedHistory(t)}
+		if rapid.IntRange(0, 3).Draw(t, "startedLongAgo") == 0 {
+			c.Epoch0 = rapid.SampledFrom([]uint64{1, 2, 7, 1 << 32, math.MaxUint64 - 1}).Draw(t, "epoch0")
+		}
 		ji, tails := checkNtimed(t, c)
 		b, _ := json.Marshal(c)
 		longTail := false
@@ -386,6 +394,16 @@ func TestPropNtimed(t *testing.T) {
 		}
 		if longTail {
 			ls = append(ls, "reset-followed-by>=4")
+		}
+		if c.Epoch0 == 0 {
+			for i, s := range c.H {
+				if s.Epoch {
+					if i >= 4 && len(c.H)-i >= 4 {
+						ls = append(ls, "first-step-of-the-clock-after>=4-samples")
+					}
+					break
+				}
+			}
 		}
 		recNtimed.Eval(ji > 0 || longTail, ev.Hash(b), func() any {
 			s := c.H
